@@ -123,6 +123,9 @@ func (catWorld) Gen(seed uint64, tier string) core.Scenario {
 		open, listening := false, false
 		nListens := 0
 		n := r.PickInt(3, 5, 8, 12)
+		if tier == "thorough" && r.Chance(1, 3) {
+			n = r.PickInt(20, 30)
+		}
 		for len(s.InOps) < n {
 			switch r.Weighted(20, 22, 25, 18, 10, 5) {
 			case 0:
@@ -193,6 +196,9 @@ func (catWorld) Gen(seed uint64, tier string) core.Scenario {
 			s.OutHelper.DieAt = r.Range(1, 6)
 		}
 		n := r.PickInt(3, 5, 8, 12)
+		if tier == "thorough" && r.Chance(1, 3) {
+			n = r.PickInt(20, 30)
+		}
 		running := false
 		for len(s.OutOps) < n {
 			switch r.Weighted(20, 25, 12, 15, 13, 10, 5) {
